@@ -12,7 +12,7 @@ def registry_cfg(maxcreate, maxobs):
 
 
 def trace_cfg(n):
-    return ("INIT TInit\nNEXT TNext\nCONSTANTS\n N = %d\n MaxLinks = 0\n ForestOnly = FALSE\n"
+    return ("INIT TInit\nNEXT TNext\nCONSTANTS\n N = %d\n MaxLinks = 0\n ForestOnly = FALSE\n SinglePass = FALSE\n"
             "INVARIANT Report\nCHECK_DEADLOCK FALSE\n" % n)
 
 
